@@ -57,13 +57,13 @@ def world_space(tier, pal):
     # subset group.  Its loader turns them into subset groups (coerce_subset_groups); label, state and the
     # complete style must survive.  Only collection version 1 is exercised with them (later versions declare
     # such subsets unsupported).
-    dims['plain_subsets'] = [0, 1, 2]
+    dims['plain_subsets'] = [0, 1, 2, 3]
     dims['plain_style'] = sorted(PLAIN_STYLES)
     legacy = []
     for w in out:
         w['plain_subsets'] = 0
         if w['groups'] == 0 and w['deco'] in ('plain', 'styled+meta'):
-            for n in (1, 2):
+            for n in (1, 2, 3):
                 for ps in sorted(PLAIN_STYLES):
                     legacy.append(dict(w, plain_subsets=n, plain_style=ps))
     return out + legacy, dims
@@ -138,7 +138,9 @@ def build_world(w, twin=False):
         d.meta['a'] = 1
         e.meta['note'] = 'text'
     specs = [('p1', d, lambda: d.id['x'] > p['x0'] + 1.5 * p['dx']),
-             ('q1', e, lambda: (e.id['y'] > p['y0'] + 0.5) & (e.id['k'] > 1))][:w.get('plain_subsets', 0)]
+             ('q1', e, lambda: (e.id['y'] > p['y0'] + 0.5) & (e.id['k'] > 1)),
+             # a third one that carries the SAME label as the first, on another dataset
+             ('p1', f, lambda: f.id['z'] > p['z0'] + 0.5)][:w.get('plain_subsets', 0)]
     for i, (label, data, mk) in enumerate(specs):
         sty = dict(PLAIN_STYLES[w['plain_style']]) if i == 0 else dict(color='#00bb22', marker='^', linestyle='dotted')
         if twin:
@@ -189,15 +191,19 @@ def observe(dc):
                 val = 'EXC ' + type(ex).__name__
             o[('data', L, 'value', role(d, cid), cid.label)] = val
         o[('data', L, 'subset-labels')] = [s.label for s in d.subsets]
+        nseen = {}
         for s in d.subsets:
+            # (subsets of one dataset that share a label are told apart by their position)
+            nseen[s.label] = nseen.get(s.label, 0) + 1
+            slabel = s.label if nseen[s.label] == 1 else '%s#%d' % (s.label, nseen[s.label])
             try:
                 m = jval(s.to_mask())
             except IncompatibleAttribute:
                 m = 'IncompatibleAttribute'
             except Exception as ex:
                 m = 'EXC ' + type(ex).__name__
-            o[('data', L, 'mask', s.label)] = m
-            o[('data', L, 'subset-style', s.label)] = full_style(s.style)
+            o[('data', L, 'mask', slabel)] = m
+            o[('data', L, 'subset-style', slabel)] = full_style(s.style)
         o[('data', L, 'style')] = dict((a, getattr(d.style, a)) for a in STYLE_ATTS)
         joins = []
         for other, (c1, c2) in d._key_joins.items():
@@ -261,6 +267,9 @@ def expressible(field, w, dv, cv):
     if kind == 'mask' and field[1] == 'f' and field[3] == 'g2' and w['link'] == 'none':
         # e.y > t evaluated on f: only reachable through the key join
         return (w['join'] == 'single' and dv >= 3) or (w['join'] == 'tuple' and dv >= 4) or w['join'] == 'none'
+    if kind == 'mask' and field[1] == 'e' and field[3] == 'p1#2' and w['link'] == 'none':
+        # f.z > t evaluated on e: only reachable through the key join
+        return (w['join'] == 'single' and dv >= 3) or (w['join'] == 'tuple' and dv >= 4) or w['join'] == 'none'
     if kind == 'mask' and field[1] == 'f' and field[3] == 'q1':
         # uses e.k, which no link carries over to f: only reachable through the key join
         return (w['join'] == 'single' and dv >= 3) or (w['join'] == 'tuple' and dv >= 4) or w['join'] == 'none'
@@ -290,7 +299,8 @@ def describe(field, w, want, got, obs):
         return 'cross-dataset values|link=%s' % w['link']
     if kind == 'mask':
         via = ''
-        if field[1] == 'f' and (field[3] == 'g2' and w['link'] == 'none' or field[3] == 'q1') and w['join'] != 'none':
+        if (field[1] == 'f' and (field[3] == 'g2' and w['link'] == 'none' or field[3] == 'q1') or
+                field[1] == 'e' and field[3] == 'p1#2' and w['link'] == 'none') and w['join'] != 'none':
             via = '|through key-join=%s' % w['join']
         return 'subset mask%s|%s' % (via, got if isinstance(got, str) else 'wrong values')
     if kind == 'joins':
@@ -349,6 +359,18 @@ def round_trip(w, dv, cv):
         got = observe(dc2)
     except Exception as ex:
         return {'load raises %s' % type(ex).__name__: (['load'], repr(ex), 'loads')}, 0
+    # the same record loaded a second time in the same process (the first result still alive) gives the same thing
+    try:
+        again = observe(GlueUnSerializer.loads(text).object('__main__'))
+    except Exception as ex:
+        return {'second load raises %s' % type(ex).__name__: (['load'], repr(ex), 'loads')}, 0
+    for field in sorted(got, key=repr):
+        if field[0] == 'data' and field[2] == 'uuid':
+            continue
+        if again.get(field) != got[field]:
+            bad['second load in the same process differs|%s' % (field[2] if field[0] == 'data' else field[1])] = \
+                (list(field), again.get(field), got[field])
+            break
     n = 0
     dropped = set()
     order = {'components': 0, 'joins': 1}
